@@ -198,7 +198,8 @@ func normalizeModelValue(raw string, inp Input) string {
 type obsPart struct {
 	s    string
 	t    *Term
-	kind string // "int", "sint32", "sint64", "bool", "dec", "day", "byte"
+	kind string // "int", "sint32", "sint64", "bool", "dec", "decs", "day", "byte"
+	aux  int64
 }
 
 func lit(s string) obsPart { return obsPart{s: s} }
@@ -251,8 +252,11 @@ func (in *Interp) flattenObs(v value) []obsPart {
 			return []obsPart{{t: v.T, kind: "int"}}
 		}
 	case Dec:
-		if v.T == nil {
+		if !v.isSym() {
 			return []obsPart{lit(v.C.String())}
+		}
+		if v.I != nil {
+			return []obsPart{{t: v.I, kind: "decs", aux: v.S}}
 		}
 		return []obsPart{{t: v.T, kind: "dec"}}
 	case Tm:
@@ -298,6 +302,8 @@ func renderObsValue(raw string, p obsPart) string {
 		return "false"
 	case "dec":
 		return ratDecimalString(r)
+	case "decs":
+		return ratDecimalString(new(big.Rat).Mul(r, pow10Rat(-p.aux)))
 	case "day":
 		y, m, d := civilFromDays(r.Num().Int64())
 		return fmt.Sprintf("%04d-%02d-%02d", y, m, d)
